@@ -18,6 +18,7 @@ func main() {
 	verbose := flag.Bool("v", false, "verbose")
 	replay := flag.String("replay", "", "replay file")
 	all := flag.Bool("all", false, "check every claimed property")
+	writeBase := flag.Bool("write-baseline", false, "with -all: write baseline_obligations.json when every claimed property is green")
 	sweepAll := flag.Bool("sweep-safety", false, "run the zero-annotation safety sweep over every function (diagnostic)")
 	flag.Parse()
 	if t := os.Getenv("VERIF_TIER"); t != "" && !isFlagSet("tier") {
@@ -34,7 +35,7 @@ func main() {
 	case *property != "":
 		os.Exit(runProperty(cfg, *property))
 	case *all:
-		os.Exit(runAll(cfg))
+		os.Exit(runAll(cfg, *writeBase))
 	}
 	fmt.Fprintln(os.Stderr, "usage: vcheck -property Cxx [-tier quick|thorough] | -func key | -all")
 	os.Exit(2)
